@@ -292,6 +292,34 @@ DoUpdateParams(s, ps) ==
   IF ~ValidParams(s, ps) THEN FailW(s, "invalid_params")
   ELSE Done([s EXCEPT !.params = ps])
 
+(***************************************************************************)
+(* Fault injection (driver cfg fault=1, default off; never part of a       *)
+(* registered check).  The errors the begin blocker discards cannot arise  *)
+(* through transactions on the code as it stands (Act_RefundNeverFails);   *)
+(* to bind the transcription of those paths to the code all the same, the  *)
+(* harness can damage the committed state between two blocks the way a     *)
+(* defect elsewhere might:                                                  *)
+(*   drain    e.amt leaves the escrow for e.who (a later refund / claim    *)
+(*            finds the escrow short: SendCoins fails after the supply     *)
+(*            counter was already decremented)                              *)
+(*   dropsup  the supply records of the denoms of e.amt disappear          *)
+(*            (Decrement*AssetSupply fails first: nothing changes)         *)
+(*   ghostq   a queue entry <<e.lock, e.id>> without a contract (GetHTLC   *)
+(*            finds nothing, RefundHTLC fails on the empty sender)         *)
+(* In every case the begin blocker swallows the error and deletes the      *)
+(* queue entry: the contract stays open for ever -- RefundOne / RefundAll  *)
+(* above say exactly that, and strict mode checks it (drift 0).            *)
+(***************************************************************************)
+DoFault(s, e) ==
+  CASE e.form = "drain" ->
+         IF e.who \in DOMAIN s.bal /\ KnownDenoms(s, e.amt) /\ CanPay(s.bal, MOD, e.amt)
+         THEN Done([s EXCEPT !.bal = Move(s.bal, MOD, e.who, e.amt)])
+         ELSE FailW(s, "fault_funds")
+    [] e.form = "dropsup" ->
+         Done([s EXCEPT !.sup = [d \in (DOMAIN s.sup) \ (DOMAIN e.amt) |-> s.sup[d]]])
+    [] e.form = "ghostq" -> Done([s EXCEPT !.q = @ \cup {<<e.lock, e.id>>}])
+    [] OTHER -> FailW(s, "unknown_fault")
+
 (* Dispatch on an event record: the deterministic step function *)
 Apply(s, e) ==
   CASE e.name = "Create"       -> DoCreate(s, e)
@@ -300,6 +328,7 @@ Apply(s, e) ==
     [] e.name = "EndBlock"     -> DoEndBlock(s)
     [] e.name = "Skip"         -> DoSkip(s, e.n, e.dt)
     [] e.name = "UpdateParams" -> DoUpdateParams(s, e.params)
+    [] e.name = "Fault"        -> DoFault(s, e)
     [] OTHER -> FailW(s, "unknown_event")
 
 -----------------------------------------------------------------------------
